@@ -49,7 +49,7 @@ def sol_ok(spec, x):
     return None
 
 
-def run_units(unit_fn, tier, seed, families=("F1", "F2", "F3", "F4", "F5", "F6"), chunk=40, filt=None):
+def run_units(unit_fn, tier, seed, families=U.ALL, chunk=40, filt=None):
     import random
 
     specs = U.universe(tier, families)
